@@ -54,6 +54,16 @@ _SCEN_ASSUME = ['scenario lookup (ScenarioManagerFactory.get_scenarios) returns 
                 'Python semantics of the subset (DESIGN 2.2.7); single-threaded']
 
 PROPS = {
+    'C04': dict(
+        mods=[], k1=[], level='other', engines=['contracts.c04_euler'],
+        harness='verif/native/c04_harness.py', harness_budget=(30, 150), always_harness=True,
+        explanation='BOUNDED in structure, all values / times / run specs: every stock/flow structure up to the bound (0..3 inflows x 0..3 outflows, thorough 4; '
+                    'non-negative, bidirectional, mixed; spaced names; chained stocks) is transpiled by the real pipeline and each generated equation text is proved '
+                    '(z3 reals, memo uninterpreted) to be the init / explicit-Euler step of its stock and max(0,.) / identity of its flow. The floating-point '
+                    'grid behaviour (one integration step per grid interval for decimal, binary and reciprocal dt, several start times), graphical functions, the '
+                    'path through bptk scenario files and the equality with the same model in the SD DSL are enumerated natively on every run (bounded search)',
+        assumptions=[], not_decided=['bounded stand-in, never counted as proved: structures beyond the bound; run specs outside the enumeration (5 start times x 18 dt values)',
+                                     'no contract is discharged on the generated runtime (memoize / LERP live in a jinja template and use numpy / scipy): executed, not verified']),
     'C10': dict(
         mods=[], k1=[], level='other', engines=['contracts.c10_arrays'],
         harness='verif/native/c10_harness.py', harness_budget=(15, 60), always_harness=True,
